@@ -531,7 +531,10 @@ func hashBNodesPerSplit(statements []*Statement, decomp bool, h hash.Hash, zero 
 		return hash, parts, ok
 	}
 
-	hash = &table{hashOf: make(map[string][]byte)}
+	hash = &table{
+		hashOf:   make(map[string][]byte),
+		termsFor: make(map[string]map[string]bool),
+	}
 	disjoint = true
 	for _, g := range splits {
 		part, ok := hashBNodes(g, h, zero, nil)
@@ -545,6 +548,16 @@ func hashBNodesPerSplit(statements []*Statement, decomp bool, h hash.Hash, zero 
 		}
 		for k, v := range part.hashOf {
 			hash.hashOf[k] = v
+		}
+		for k, v := range part.termsFor {
+			terms, ok := hash.termsFor[k]
+			if !ok {
+				terms = make(map[string]bool, len(v))
+				hash.termsFor[k] = terms
+			}
+			for t := range v {
+				terms[t] = true
+			}
 		}
 		parts = appendOrdered(parts, part.termsFor)
 	}
